@@ -1025,4 +1025,88 @@ theorem C_check_delim (m : Mem) (bs bw bn : Nat) (s : List UInt8) (h : MemBytes 
   · simpa [Econf.hasWsp, hf'] using h2
   · simpa [Econf.hasNonWsp, hf'] using h3
 
+/-! ## `hashstring` -/
+
+def M64 : Int := 18446744073709551616
+
+/-- one step of Bernstein's hash as the C code computes it in `size_t` -/
+def djbStep (h : Int) (c : UInt8) : Int := (h * 33 + sch c) % M64
+
+def djb2 (s : List UInt8) : Int := s.foldl djbStep 5381
+
+theorem wrapTo_u64_eq (n : Int) : wrapTo .u64 n = n % M64 := by
+  simp only [wrapTo, Ty.bits, Ty.signed, show (Ty.u64 == Ty.bool) = false from rfl, Bool.false_eq_true, if_false, Bool.false_and, M64]
+  have hp : ((2 : Int) ^ 64) = 18446744073709551616 := by decide
+  rw [hp]
+
+theorem djb_arith (h c : Int) : ((h * 2 ^ 5 % M64 + h) % M64 + c % M64) % M64 = (h * 33 + c) % M64 := by
+  have : (2 : Int) ^ 5 = 32 := by decide
+  rw [this]
+  simp only [M64]
+  omega
+
+theorem hashstring_exec (m : Mem) (b : Nat) (s : List UInt8) (h : MemBytes m b (s ++ [0])) (hs : (0 : UInt8) ∉ s)
+    (fuel : Nat) (hf : s.length < fuel) :
+    ∃ loc', exec fuel LeafFns.hashstring.body { mem := m, loc := [.ptr b 0, .undef, .undef] } = .ret (.int (djb2 s)) { mem := m, loc := loc' } := by
+  obtain ⟨blk, h1, h2, _, h3⟩ := h.blk
+  have hcl : blk.cells.length = s.length + 1 := by rw [h3]; simp
+  have hinit : exec fuel (.expr (.assign (.var 1) (.cast .u64 (.lit 5381 .i32)) .u64)) { mem := m, loc := [.ptr b 0, .undef, .undef] } =
+      .normal { mem := m, loc := [.ptr b 0, .int 5381, .undef] } := by
+    have : wrapTo .u64 5381 = 5381 := by rw [wrapTo_u64_eq]; decide
+    simp [exec, evalE, evalL, writePlace, convert, bind, Except.bind, this]
+  simp only [LeafFns.hashstring]
+  rw [exec_seq_normal hinit]
+  have hloop := loop_inv
+    (testOf (some (.assign (.var 2) (.load (.deref (.incdec (.var 0) true true .ptr)) .i8) .i8)))
+    (exec fuel (.expr (.assign (.var 1) (.bin .add (.bin .add (.bin .shl (.load (.var 1) .u64) (.lit 5 .i32) .u64) (.load (.var 1) .u64) .u64)
+      (.cast .u64 (.load (.var 2) .i8)) .u64) .u64))) (stepOf none)
+    (fun R => R.mem = m ∧ R.loc = [.ptr b (s.length + 1 : Nat), .int (djb2 s), .int 0])
+    s.length
+    (fun i st => st.mem = m ∧ ∃ v2, st.loc = [.ptr b (i : Nat), .int (djb2 (s.take i)), v2])
+    ?_ ?_ { mem := m, loc := [.ptr b 0, .int 5381, .undef] } fuel ⟨rfl, .undef, by simp [djb2]⟩ (by omega)
+  · obtain ⟨R, hl, hm, hloc⟩ := hloop
+    obtain ⟨Rm, Rl⟩ := R
+    simp only at hm hloc
+    subst hm; subst hloc
+    rw [← exec_while] at hl
+    rw [exec_seq_normal hl]
+    exact ⟨[.ptr b (s.length + 1 : Nat), .int (djb2 s), .int 0], by simp [exec, evalE, evalL, readPlace, bind, Except.bind]⟩
+  · intro i st hi ⟨hm, v2, hloc⟩
+    obtain ⟨stm, stl⟩ := st
+    simp only at hm hloc
+    subst hm; subst hloc
+    have hld := h.load8 i (by simp; omega)
+    rw [List.getElem_append_left hi] at hld
+    have hc0 : s[i] ≠ 0 := fun h0 => hs (h0 ▸ List.getElem_mem _)
+    have hnz : sch s[i] ≠ 0 := fun h0 => hc0 ((sch_zero_iff _).1 h0)
+    have h0 : (0 : Int) ≤ (i : Int) + 1 := by omega
+    have hle : (i : Int) + 1 ≤ (blk.cells.length : Int) := by rw [hcl]; omega
+    have hnext : djb2 (s.take (i + 1)) = djbStep (djb2 (s.take i)) s[i] := by
+      rw [List.take_succ_eq_append_getElem hi]; simp only [djb2, List.foldl_append, List.foldl_cons, List.foldl_nil]
+    refine ⟨{ mem := stm, loc := [.ptr b (i + 1 : Nat), .int (djb2 (s.take i)), .int (sch s[i])] },
+      { mem := stm, loc := [.ptr b (i + 1 : Nat), .int (djb2 (s.take (i + 1))), .int (sch s[i])] },
+      { mem := stm, loc := [.ptr b (i + 1 : Nat), .int (djb2 (s.take (i + 1))), .int (sch s[i])] }, ?_, Or.inl ?_, by simp [stepOf], rfl, _, rfl⟩
+    · simp [testOf, evalE, evalL, readPlace, writePlace, binop, ptrAdd, Mem.block, h1, h2, h0, hle, hld, convert, wrapTo_i8_sch,
+        bind, Except.bind, Except.map, truth, hnz, Int.natCast_add]
+    · have h5 : (0 : Int) ≤ 5 ∧ (5 : Int) < 64 := by decide
+      simp [exec, evalE, evalL, readPlace, writePlace, binop, cmpInt, arith, Ty.signed, Ty.bits, convert, wrapTo_u64_eq, bind, Except.bind,
+        hnext, djbStep]
+      simp only [M64]
+      omega
+  · intro st ⟨hm, v2, hloc⟩
+    obtain ⟨stm, stl⟩ := st
+    simp only at hm hloc
+    subst hm; subst hloc
+    have hld := h.load8 s.length (by simp)
+    rw [List.getElem_append_right (by omega)] at hld
+    simp only [Nat.sub_self, List.getElem_cons_zero] at hld
+    have hz : sch 0 = 0 := by rw [sch_eq]; decide
+    rw [hz] at hld
+    have h0 : (0 : Int) ≤ (s.length : Int) + 1 := by omega
+    have hle : (s.length : Int) + 1 ≤ (blk.cells.length : Int) := by rw [hcl]; omega
+    have w0 : wrapTo .i8 0 = 0 := by rw [← hz, wrapTo_i8_sch]
+    refine ⟨{ mem := stm, loc := [.ptr b (s.length + 1 : Nat), .int (djb2 s), .int 0] }, ?_, rfl, by simp⟩
+    simp [testOf, evalE, evalL, readPlace, writePlace, binop, ptrAdd, Mem.block, h1, h2, h0, hle, hld, convert, w0,
+      bind, Except.bind, Except.map, truth, Int.natCast_add, List.take_length]
+
 end Leaf
